@@ -110,9 +110,16 @@ instance : LawfulMonad SM := LawfulMonad.mk' SM
 
 /-! ### erasure -/
 
-def eraseObj (o : FObj) : SObj := { code := o.code, lex := o.lex, fixed := o.fixed }
+/-- position and size are part of the lexical focus only when there is one -/
+def eraseFocus (li : Option Item) (pos size : Nat) : Focus :=
+  if li.isSome then (li, pos, size) else (none, 1, 1)
+
+def eraseObj (o : FObj) : SObj :=
+  { code := o.code, lex := o.lex, fixed := o.fixed, focus := eraseFocus o.flitem o.fpos o.fsize }
 def eraseHeap (h : List FObj) : SHeap := h.map eraseObj
-def eraseCtx (c : ICtx) : SCtx := { lex := c.lex, item := c.litem }
+def eraseCtx (c : ICtx) : SCtx :=
+  { lex := c.lex, item := c.litem, pos := (eraseFocus c.litem c.pos c.size).2.1,
+    size := (eraseFocus c.litem c.pos c.size).2.2 }
 
 @[simp] theorem eraseHeap_length (h : List FObj) : (eraseHeap h).length = h.length := by
   simp [eraseHeap]
